@@ -474,120 +474,182 @@ def within_strata_ok(orig, new, g):
 def oracle(c, o):
     f = c["f"]
     if f == "pwg":
-        if o["r"][0] != "ok": return {"why": f"permute_within_groups raised {o['r']}", "cls": "pwg:raises"}
-        if not o["unmodified"]: return {"why": "permute_within_groups modified its arguments", "cls": "pwg:input-modified"}
-        if not o["global_same"]: return {"why": "permute_within_groups with a generator advanced the global state", "cls": "pwg:global-rng"}
+        if o["r"][0] != "ok":
+            _v = emit({"why": f"permute_within_groups raised {o['r']}", "cls": "pwg:raises"})
+            if _v: return _v
+        if not o["unmodified"]:
+            _v = emit({"why": "permute_within_groups modified its arguments", "cls": "pwg:input-modified"})
+            if _v: return _v
+        if not o["global_same"]:
+            _v = emit({"why": "permute_within_groups with a generator advanced the global state", "cls": "pwg:global-rng"})
+            if _v: return _v
         x = [F(v) for v in c["x"]]
         if not within_strata_ok(x, [fl(v) for v in o["r"][1]], c["g"]):
-            return {"why": f"permute_within_groups moved values between groups: {c['x']} / {c['g']} -> {o['r'][1]}", "cls": "pwg:inadmissible"}
+            _v = emit({"why": f"permute_within_groups moved values between groups: {c['x']} / {c['g']} -> {o['r'][1]}", "cls": "pwg:inadmissible"})
+            if _v: return _v
         sizes = sorted(c["g"].count(k) for k in set(c["g"]))
         want = [b for s in [c["g"].count(k) for k in sorted(set(c["g"]))] for b in range(s, 0, -1)]
         if [b for (b, _) in o["log"]] != want:
-            return {"why": f"permute_within_groups requested draws with bounds {[b for (b, _) in o['log']]}, expected one Fisher-Yates pass per group {want} independent of the data", "cls": "pwg:draws-depend-on-data"}
+            _v = emit({"why": f"permute_within_groups requested draws with bounds {[b for (b, _) in o['log']]}, expected one Fisher-Yates pass per group {want} independent of the data", "cls": "pwg:draws-depend-on-data"})
+            if _v: return _v
         if "second" in o:
             s = o["second"]; g2 = c["g2"]
-            if s["r"][0] != "ok": return {"why": f"permute_within_groups raised on the second call of a session: {s['r']}", "cls": "pwg:raises"}
-            if not s["unmodified"]: return {"why": "permute_within_groups modified its arguments (second call)", "cls": "pwg:input-modified"}
+            if s["r"][0] != "ok":
+                _v = emit({"why": f"permute_within_groups raised on the second call of a session: {s['r']}", "cls": "pwg:raises"})
+                if _v: return _v
+            if not s["unmodified"]:
+                _v = emit({"why": "permute_within_groups modified its arguments (second call)", "cls": "pwg:input-modified"})
+                if _v: return _v
             if not within_strata_ok(x, [fl(v) for v in s["r"][1]], g2):
-                return {"why": f"after the group array was changed in place from {c['g']} to {g2}, permute_within_groups moved values between the NEW groups: {c['x']} -> {s['r'][1]}", "cls": "pwg:inadmissible"}
+                _v = emit({"why": f"after the group array was changed in place from {c['g']} to {g2}, permute_within_groups moved values between the NEW groups: {c['x']} -> {s['r'][1]}", "cls": "pwg:inadmissible"})
+                if _v: return _v
             want2 = [b for k in sorted(set(g2)) for b in range(g2.count(k), 0, -1)]
             if [b for (b, _) in s["log"]] != want2:
-                return {"why": f"second call (group array changed in place to {g2}): draws with bounds {[b for (b, _) in s['log']]}, expected {want2}", "cls": "pwg:draws-depend-on-data"}
+                _v = emit({"why": f"second call (group array changed in place to {g2}): draws with bounds {[b for (b, _) in s['log']]}, expected {want2}", "cls": "pwg:draws-depend-on-data"})
+                if _v: return _v
         return None
     if f == "rows":
-        if o["r"][0] != "ok": return {"why": f"permute_rows raised {o['r']}", "cls": "rows:raises"}
-        if not o["unmodified"]: return {"why": "permute_rows modified its argument", "cls": "rows:input-modified"}
+        if o["r"][0] != "ok":
+            _v = emit({"why": f"permute_rows raised {o['r']}", "cls": "rows:raises"})
+            if _v: return _v
+        if not o["unmodified"]:
+            _v = emit({"why": "permute_rows modified its argument", "cls": "rows:input-modified"})
+            if _v: return _v
         for m2 in o["r"][1]:
             if len(m2) != len(c["m"]) or any(sorted(a) != sorted(b) for a, b in zip(m2, c["m"])):
-                return {"why": f"permute_rows output {m2} is not a row-wise rearrangement of {c['m']}", "cls": "rows:inadmissible"}
+                _v = emit({"why": f"permute_rows output {m2} is not a row-wise rearrangement of {c['m']}", "cls": "rows:inadmissible"})
+                if _v: return _v
         return None
     if f == "spt":
-        if o["r"][0] != "ok": return {"why": f"stratified_permutationtest raised {o['r']}", "cls": "spt:raises"}
+        if o["r"][0] != "ok":
+            _v = emit({"why": f"stratified_permutationtest raised {o['r']}", "cls": "spt:raises"})
+            if _v: return _v
         if o["r"][3] is None:
             if len(set(c["c"])) >= 2:
-                return {"why": "stratified_permutationtest returned no distribution", "cls": "spt:nodist"}
+                _v = emit({"why": "stratified_permutationtest returned no distribution", "cls": "spt:nodist"})
+                if _v: return _v
             return None if o["r"][1] == 1.0 else {"why": f"stratified_permutationtest with a single condition returned p = {o['r'][1]} (documented: 1.0, nan, None)", "cls": "spt:p-range"}
-        if not o["unmodified"]: return {"why": "stratified_permutationtest modified its arguments", "cls": "spt:input-modified"}
-        if not o["global_same"]: return {"why": "stratified_permutationtest advanced the global state", "cls": "spt:global-rng"}
+        if not o["unmodified"]:
+            _v = emit({"why": "stratified_permutationtest modified its arguments", "cls": "spt:input-modified"})
+            if _v: return _v
+        if not o["global_same"]:
+            _v = emit({"why": "stratified_permutationtest advanced the global state", "cls": "spt:global-rng"})
+            if _v: return _v
         for v in o["rec"][1:]:
             if not within_strata_ok(c["c"], v, c["g"]):
-                return {"why": f"stratified_permutationtest: rearranged conditions {v} move labels between groups {c['g']} (original {c['c']})", "cls": "spt:inadmissible"}
+                _v = emit({"why": f"stratified_permutationtest: rearranged conditions {v} move labels between groups {c['g']} (original {c['c']})", "cls": "spt:inadmissible"})
+                if _v: return _v
         if o["rec"] and o["rec"][0] != c["c"]:
-            return {"why": "observed statistic not evaluated on the conditions as given", "cls": "spt:observed-not-data"}
-        if len(o["r"][3]) != c["reps"]: return {"why": "len(dist) != reps", "cls": "spt:dist-length"}
+            _v = emit({"why": "observed statistic not evaluated on the conditions as given", "cls": "spt:observed-not-data"})
+            if _v: return _v
+        if len(o["r"][3]) != c["reps"]:
+            _v = emit({"why": "len(dist) != reps", "cls": "spt:dist-length"})
+            if _v: return _v
         return tail_check("spt", c["alt"], o["r"][1], o["r"][2], o["r"][3], c["plus1"])
     if f == "s2s":
         a, b = o["a"], o["b"]
-        if a["r"][0] != "ok" or b["r"][0] != "ok": return {"why": f"stratified_two_sample raised {a['r']} {b['r']}", "cls": "s2s:raises"}
+        if a["r"][0] != "ok" or b["r"][0] != "ok":
+            _v = emit({"why": f"stratified_two_sample raised {a['r']} {b['r']}", "cls": "s2s:raises"})
+            if _v: return _v
         for t in (a, b):
-            if not t["unmodified"]: return {"why": "stratified_two_sample modified its arguments", "cls": "s2s:input-modified"}
-            if not t["global_same"]: return {"why": "stratified_two_sample advanced the global state", "cls": "s2s:global-rng"}
+            if not t["unmodified"]:
+                _v = emit({"why": "stratified_two_sample modified its arguments", "cls": "s2s:input-modified"})
+                if _v: return _v
+            if not t["global_same"]:
+                _v = emit({"why": "stratified_two_sample advanced the global state", "cls": "s2s:global-rng"})
+                if _v: return _v
         kept = a if a["keep"] else b; other = b if a["keep"] else a
         if not close(kept["r"][1], other["r"][1]) or kept["r"][2] != other["r"][2]:
-            return {"why": f"stratified_two_sample: keep_dist changes the result {kept['r'][:3]} vs {other['r'][:3]}", "cls": "s2s:keepdist-differs"}
+            _v = emit({"why": f"stratified_two_sample: keep_dist changes the result {kept['r'][:3]} vs {other['r'][:3]}", "cls": "s2s:keepdist-differs"})
+            if _v: return _v
         resp = [F(v) for v in c["resp"]]; ordd = o["ord"]
         r0 = [resp[i] for i in ordd]; g0 = [c["g"][i] for i in ordd]
         for t in (a, b):
             for v in t["rec"][1:]:
                 if not within_strata_ok(r0, [fl(z) for z in v], g0):
-                    return {"why": f"stratified_two_sample: responses {v} moved between groups", "cls": "s2s:inadmissible"}
-        if len(kept["r"][3]) != c["reps"]: return {"why": "len(dist) != reps", "cls": "s2s:dist-length"}
+                    _v = emit({"why": f"stratified_two_sample: responses {v} moved between groups", "cls": "s2s:inadmissible"})
+                    if _v: return _v
+        if len(kept["r"][3]) != c["reps"]:
+            _v = emit({"why": "len(dist) != reps", "cls": "s2s:dist-length"})
+            if _v: return _v
         if c["stat"] == "mean":
             c0 = min(c["c"]); n0 = c["c"].count(c0)
             t = [resp[i] for i in range(len(resp)) if c["c"][i] == c0]; u = [resp[i] for i in range(len(resp)) if c["c"][i] != c0]
             want = sum(t) / len(t) - sum(u) / len(u)
             if not close(kept["r"][2], want):
-                return {"why": f"stratified_two_sample('mean'): observed {kept['r'][2]} is not the difference in means {float(want)}", "cls": "s2s:observed-stat"}
+                _v = emit({"why": f"stratified_two_sample('mean'): observed {kept['r'][2]} is not the difference in means {float(want)}", "cls": "s2s:observed-stat"})
+                if _v: return _v
         return tail_check("s2s", c["alt"], kept["r"][1], kept["r"][2], kept["r"][3], c["plus1"])
     if f == "biv":
         a, b = o["a"], o["b"]
-        if a["r"][0] != "ok" or b["r"][0] != "ok": return {"why": f"bivariate_k_sample raised {a['r']} {b['r']}", "cls": "biv:raises"}
+        if a["r"][0] != "ok" or b["r"][0] != "ok":
+            _v = emit({"why": f"bivariate_k_sample raised {a['r']} {b['r']}", "cls": "biv:raises"})
+            if _v: return _v
         kept = a if a["keep"] else b; other = b if a["keep"] else a
         for t in (a, b):
-            if not t["unmodified"]: return {"why": "bivariate_k_sample modified its arguments", "cls": "biv:input-modified"}
-            if not t["global_same"]: return {"why": "bivariate_k_sample advanced the global state", "cls": "biv:global-rng"}
+            if not t["unmodified"]:
+                _v = emit({"why": "bivariate_k_sample modified its arguments", "cls": "biv:input-modified"})
+                if _v: return _v
+            if not t["global_same"]:
+                _v = emit({"why": "bivariate_k_sample advanced the global state", "cls": "biv:global-rng"})
+                if _v: return _v
         if not all(math.isfinite(v) for v in kept["r"][3] + [kept["r"][2]]):
             return None
         if not close(kept["r"][1], other["r"][1]) or kept["r"][2] != other["r"][2]:
-            return {"why": "bivariate_k_sample: keep_dist changes the result", "cls": "biv:keepdist-differs"}
+            _v = emit({"why": "bivariate_k_sample: keep_dist changes the result", "cls": "biv:keepdist-differs"})
+            if _v: return _v
         if c.get("cstat"):
             x = [float(F(v)) for v in c["x"]]
             f0 = lambda g2: float(sum(v * (i + 1) for i, v in enumerate(x) if g2[i] == min(g2)))
             for t in (a, b):
                 if len(t["rec"]) != c["reps"] + 1:
-                    return {"why": f"bivariate_k_sample called the statistic {len(t['rec'])} times for reps={c['reps']}", "cls": "biv:call-count"}
+                    _v = emit({"why": f"bivariate_k_sample called the statistic {len(t['rec'])} times for reps={c['reps']}", "cls": "biv:call-count"})
+                    if _v: return _v
                 for (gg1, gg2, xbar) in t["rec"]:
                     if gg1 != c["g1"] or not within_strata_ok([F(v) for v in c["g2"]], [F(v) for v in gg2], c["g1"]):
-                        return {"why": f"bivariate_k_sample handed the statistic labels {gg2} (fixed factor {gg1}): not a rearrangement of {c['g2']} within the levels of {c['g1']}", "cls": "biv:inadmissible"}
+                        _v = emit({"why": f"bivariate_k_sample handed the statistic labels {gg2} (fixed factor {gg1}): not a rearrangement of {c['g2']} within the levels of {c['g1']}", "cls": "biv:inadmissible"})
+                        if _v: return _v
                     if abs(xbar - sum(x) / len(x)) > 1e-9 * (1 + abs(xbar)):
-                        return {"why": f"bivariate_k_sample passed overall mean {xbar}", "cls": "biv:observed-stat"}
+                        _v = emit({"why": f"bivariate_k_sample passed overall mean {xbar}", "cls": "biv:observed-stat"})
+                        if _v: return _v
             if kept["r"][2] != f0(c["g2"]) or any(dv != f0(gg2) for dv, (_, gg2, _) in zip(kept["r"][3], kept["rec"][1:])):
-                return {"why": "bivariate_k_sample with a callable statistic: reported values are not the callable's values on the data as given / on the rearrangements it received", "cls": "biv:observed-stat"}
+                _v = emit({"why": "bivariate_k_sample with a callable statistic: reported values are not the callable's values on the data as given / on the rearrangements it received", "cls": "biv:observed-stat"})
+                if _v: return _v
             return tail_check("biv", "greater", kept["r"][1], kept["r"][2], kept["r"][3], c["plus1"])
         x = [F(v) for v in c["x"]]; m = sum(x) / len(x)
         sst = sum((v - m) ** 2 for v in x)
         ss2 = sum((sum(x[i] for i in range(len(x)) if c["g2"][i] == k) / c["g2"].count(k) - m) ** 2 for k in set(c["g2"]))
         if sst != ss2 and not close(kept["r"][2], ss2 / (sst - ss2), 1e-9):
-            return {"why": f"bivariate_k_sample: observed statistic {kept['r'][2]} is not SSB/(SST-SSB) = {float(ss2 / (sst - ss2))}", "cls": "biv:observed-stat"}
+            _v = emit({"why": f"bivariate_k_sample: observed statistic {kept['r'][2]} is not SSB/(SST-SSB) = {float(ss2 / (sst - ss2))}", "cls": "biv:observed-stat"})
+            if _v: return _v
         return tail_check("biv", "greater", kept["r"][1], kept["r"][2], kept["r"][3], c["plus1"])
     if f == "simcorr":
-        if o["r"][0] != "ok": return {"why": f"sim_corr raised {o['r']}", "cls": "sim_corr:raises"}
-        if not o["unmodified"]: return {"why": "sim_corr modified its arguments", "cls": "sim_corr:input-modified"}
-        if not o["global_same"]: return {"why": "sim_corr advanced the global state", "cls": "sim_corr:global-rng"}
+        if o["r"][0] != "ok":
+            _v = emit({"why": f"sim_corr raised {o['r']}", "cls": "sim_corr:raises"})
+            if _v: return _v
+        if not o["unmodified"]:
+            _v = emit({"why": "sim_corr modified its arguments", "cls": "sim_corr:input-modified"})
+            if _v: return _v
+        if not o["global_same"]:
+            _v = emit({"why": "sim_corr advanced the global state", "cls": "sim_corr:global-rng"})
+            if _v: return _v
         p, tst, d = o["r"][1:4]
         x = [float(F(v)) for v in c["x"]]; y = np.array([float(F(v)) for v in c["y"]]); g = np.array(c["g"])
         ans = [a for (_, a) in o["log"]]
         e0 = doc_corr(x, y, g)
         want_bounds = [b for k in sorted(set(c["g"])) for b in range(c["g"].count(k), 0, -1)] * c["reps"]
         if [b for (b, _) in o["log"]] != want_bounds:
-            return {"why": f"sim_corr requested draws with bounds {[b for (b, _) in o['log']][:12]}..., expected one Fisher-Yates pass per group and repetition {want_bounds[:12]}...", "cls": "sim_corr:draws-depend-on-data"}
+            _v = emit({"why": f"sim_corr requested draws with bounds {[b for (b, _) in o['log']][:12]}..., expected one Fisher-Yates pass per group and repetition {want_bounds[:12]}...", "cls": "sim_corr:draws-depend-on-data"})
+            if _v: return _v
         if math.isfinite(e0) and not (abs(e0 - tst) <= 1e-9 * (1 + abs(e0))):
-            return {"why": f"sim_corr: observed statistic {tst} is not the sum over groups of the Pearson correlations of the data as given ({e0}); groups {c['g']}", "cls": "sim_corr:observed-stat"}
+            _v = emit({"why": f"sim_corr: observed statistic {tst} is not the sum over groups of the Pearson correlations of the data as given ({e0}); groups {c['g']}", "cls": "sim_corr:observed-stat"})
+            if _v: return _v
         for k in range(c["reps"]):
             xp = np.array(m_pwg(x, c["g"], ans))
             e = doc_corr(xp, y, g)
             if math.isfinite(e) and not (abs(e - d[k]) <= 1e-9 * (1 + abs(e))):      # a NaN where the documented value is finite fails too
-                return {"why": f"sim_corr: repetition {k} has statistic {d[k]} but the within-group re-pairing selected by the draws gives {e}", "cls": "sim_corr:wrong-rearrangement"}
+                _v = emit({"why": f"sim_corr: repetition {k} has statistic {d[k]} but the within-group re-pairing selected by the draws gives {e}", "cls": "sim_corr:wrong-rearrangement"})
+                if _v: return _v
         if not all(math.isfinite(v) for v in d + [tst]): return None
         return tail_check("sim_corr", c["alt"], p, tst, d, c["plus1"])
     if f == "sptm":
@@ -595,21 +657,25 @@ def oracle(c, o):
         nc = len(set(c["c"]))
         if nc < 2:
             return None if (r[0] == "exc" and r[1] == "ValueError") else {"why": f"stratified_permutationtest_mean with one condition: {r}", "cls": "sptm:guard"}
-        if r[0] != "ok": return {"why": f"stratified_permutationtest_mean raised {r}", "cls": "sptm:raises"}
+        if r[0] != "ok":
+            _v = emit({"why": f"stratified_permutationtest_mean raised {r}", "cls": "sptm:raises"})
+            if _v: return _v
         resp = [float(F(v)) for v in c["resp"]]
         tot = 0.0
         for gk in sorted(set(c["g"])):
             means = [np.mean([resp[i] for i in range(len(resp)) if c["g"][i] == gk and c["c"][i] == ck]) for ck in sorted(set(c["c"]))]
             tot += abs(means[0] - means[1]) if nc == 2 else float(np.std(means))
         if abs(r[1] - tot) > 1e-9 * (1 + abs(tot)):
-            return {"why": f"stratified mean statistic {r[1]} but documented (sum of |diff| for 2 conditions, of std for more) = {tot}; groups={c['g']} conditions={c['c']}", "cls": "sptm:stat-choice"}
+            _v = emit({"why": f"stratified mean statistic {r[1]} but documented (sum of |diff| for 2 conditions, of std for more) = {tot}; groups={c['g']} conditions={c['c']}", "cls": "sptm:stat-choice"})
+            if _v: return _v
         return None
     # named
     name = c["fn"]
     if "tape" in o:
         tp = o.pop("tape")
         if tp["r"][0] != "ok":
-            return {"why": f"{name} raised on a scripted tape: {tp['r']}", "cls": f"{CANON.get(name, name)}:raises"}
+            _v = emit({"why": f"{name} raised on a scripted tape: {tp['r']}", "cls": f"{CANON.get(name, name)}:raises"})
+            if _v: return _v
         got = [tp["r"][2]] + tp["r"][3]
         if tp.get("leftover"):
             return {"why": f"{CANON.get(name, name)} drew {tp['leftover']} more answers than one within-stratum pass for each of the {c['reps']} repetitions: the number of draws depends on the data (response={c['resp']})",
@@ -622,21 +688,32 @@ def oracle(c, o):
                         "cls": f"{CANON.get(name, name)}:stat-option:{name[4:] if name != 'spt' else 'mean'}"}
     rs = {k: v["r"] for k, v in o.items()}
     if any(v[0] != "ok" for v in rs.values()):
-        return {"why": f"{name} raised: {[(k, v[:3]) for k, v in rs.items() if v[0] != 'ok']}", "cls": f"{name}:raises"}
+        _v = emit({"why": f"{name} raised: {[(k, v[:3]) for k, v in rs.items() if v[0] != 'ok']}", "cls": f"{name}:raises"})
+        if _v: return _v
     if "nokeep" in rs:
         nk = rs.pop("nokeep"); o = {k: v for k, v in o.items() if k != "nokeep"}
         if not close(nk[1], rs["int1"][1]) or nk[2] != rs["int1"][2]:
-            return {"why": f"{name}: keep_dist=False gives (p, obs) = {nk[1:3]}, keep_dist=True {rs['int1'][1:3]} under the same seed", "cls": f"{CANON.get(name, name)}:keepdist-differs"}
+            _v = emit({"why": f"{name}: keep_dist=False gives (p, obs) = {nk[1:3]}, keep_dist=True {rs['int1'][1:3]} under the same seed", "cls": f"{CANON.get(name, name)}:keepdist-differs"})
+            if _v: return _v
     def same(a, b):
         return len(a) == len(b) and all((x == y) or (isinstance(x, float) and isinstance(y, float) and math.isnan(x) and math.isnan(y)) or (isinstance(x, list) and same(x, y)) for x, y in zip(a, b))
-    if not same(rs["int1"], rs["int2"]): return {"why": f"{name}: equal seeds under different numpy global states differ", "cls": f"{name}:irreproducible"}
-    if not same(rs["int1"], rs["sha"]): return {"why": f"{name}: int seed vs SHA256(seed) differ", "cls": f"{name}:int-vs-sha256"}
-    if not same(rs["rs1"], rs["rs2"]): return {"why": f"{name}: RandomState replay differs", "cls": f"{name}:randomstate-replay"}
+    if not same(rs["int1"], rs["int2"]):
+        _v = emit({"why": f"{name}: equal seeds under different numpy global states differ", "cls": f"{name}:irreproducible"})
+        if _v: return _v
+    if not same(rs["int1"], rs["sha"]):
+        _v = emit({"why": f"{name}: int seed vs SHA256(seed) differ", "cls": f"{name}:int-vs-sha256"})
+        if _v: return _v
+    if not same(rs["rs1"], rs["rs2"]):
+        _v = emit({"why": f"{name}: RandomState replay differs", "cls": f"{name}:randomstate-replay"})
+        if _v: return _v
     for k, v in o.items():
         if not v.get("global_same", True):
-            return {"why": f"{name} ({k}) advanced numpy's global random state", "cls": f"{name}:global-rng"}
+            _v = emit({"why": f"{name} ({k}) advanced numpy's global random state", "cls": f"{name}:global-rng"})
+            if _v: return _v
     p, tst, d = rs["int1"][1:4]
-    if len(d) != c["reps"]: return {"why": f"{name}: len(dist) != reps", "cls": f"{name}:dist-length"}
+    if len(d) != c["reps"]:
+        _v = emit({"why": f"{name}: len(dist) != reps", "cls": f"{name}:dist-length"})
+        if _v: return _v
     alt = c["alt"] if name not in ("biv", "ts") else "greater"
     if all(math.isfinite(v) for v in d + [tst]):
         return tail_check(name, alt, p, tst, d, c["plus1"])
